@@ -129,12 +129,30 @@ type CheckResult struct {
 	WallS       float64
 	ToolError   string
 	Uncontracted []string
+	Inlined      []string
+	Undecided    []map[string]interface{}
 	CoverSat    int
 	Selftest    map[string]interface{}
 	Level       string
 	CoverRelaxed int
 	CoverUnknown int
 	CoverUnsat  []string
+}
+
+// staleReasons: the ways a contract can fail to apply to the function as it now is (as opposed to an obligation the
+// solver cannot discharge).
+func staleReasons(e *enc) []string {
+	var out []string
+	for _, m := range e.errs {
+		if strings.Contains(m, "unknown identifier") || strings.Contains(m, "matches no call site") || strings.Contains(m, "clause but the function has") {
+			out = append(out, m)
+		}
+	}
+	for _, h := range e.needContract {
+		out = append(out, "calls "+h+", which has no contract and cannot be verified in place (it has a loop, a defer or is recursive: it needs a contract of its own)")
+	}
+	sort.Strings(out)
+	return out
 }
 
 func loadKnown(root string) []KnownFinding {
@@ -187,6 +205,9 @@ func runCheck(repo, root, prop, tier string, seed int) *CheckResult {
 	funcSet := map[string]bool{}
 	trusted := map[string]bool{}
 	uncon := map[string]bool{}
+	inlinedSet := map[string]bool{}
+	staleFuncs := map[string][]string{}
+	staleLabels := map[string]bool{}
 	var encErrs []string
 	names := v.contractedFuncs()
 	isSafetyProp := prop == "C13" || prop == "C19"
@@ -197,6 +218,9 @@ func runCheck(repo, root, prop, tier string, seed int) *CheckResult {
 				continue
 			}
 			if hasProp(v.safetyPropsFor(fn), prop) && fn.Blocks != nil && !strings.HasSuffix(n, ".init") && !strings.Contains(n, "init#") {
+				if v.inlinedOnly()[fn] {
+					continue // verified in place, in the context of each caller (inline.go)
+				}
 				names = append(names, n)
 			}
 		}
@@ -237,8 +261,29 @@ func runCheck(repo, root, prop, tier string, seed int) *CheckResult {
 			continue
 		}
 		e := v.encodeFunction(fn, fc)
+		// a contract that can no longer be applied as written (it names a local, a loop or a call site the function no
+		// longer has, or the function now calls a helper that needs its own loop invariant) proves nothing either way:
+		// the function's obligations are UNDECIDED, reported as such, and the property's bounded stand-ins decide.
+		// Without a bounded stand-in to fall back on, the mismatch is reported like any other undischarged obligation.
+		if why := staleReasons(e); len(why) > 0 && fc != nil && len(meta.Bounded) > 0 {
+			staleFuncs[name] = why
+			for _, l := range [][]*Clause{fc.Requires, fc.Ensures, fc.Proves, fc.CallAsrt} {
+				for _, c := range l {
+					staleLabels[c.Name] = true
+				}
+			}
+			for _, cs := range fc.Loops {
+				for _, c := range cs {
+					staleLabels[c.Name] = true
+				}
+			}
+			continue
+		}
 		for _, m := range e.errs {
 			encErrs = append(encErrs, m)
+		}
+		for u := range e.inlined {
+			inlinedSet[u] = true
 		}
 		for u := range e.uncontracted {
 			uncon[u] = true
@@ -338,7 +383,7 @@ func runCheck(repo, root, prop, tier string, seed int) *CheckResult {
 		return false
 	}
 	for _, r := range meta.Required {
-		if !hasLabel(r) {
+		if !hasLabel(r) && !staleLabels[r] {
 			obls = append(obls, &Obligation{Name: "contract-target-missing/" + r, Kind: "target", Props: []string{prop},
 				Src: "required obligation label yields no obligation", Result: &SolverResult{Status: "missing"}})
 		}
@@ -356,14 +401,15 @@ func runCheck(repo, root, prop, tier string, seed int) *CheckResult {
 			if o.Query == "" {
 				o.Query = o.BuildQuery()
 			}
-			// attempt ladder: the solvers' default configuration first (deterministic), then two other random seeds
-			// (VERIF_SEED-derived). `unsat` under any configuration discharges; only an attempt's own `sat` fails at once.
+			// attempt ladder: the solvers' default configuration first (deterministic), then another random seed
+			// (VERIF_SEED-derived), then the default configuration again with four times the time (a loaded machine must not
+			// turn a slow proof into an alarm). `unsat` under any configuration discharges; only an attempt's own `sat` fails at once.
 			s2 := seed
 			if s2 == 0 {
 				s2 = 7
 			}
 			r := discharge(work, o.Name, o.Query, timeout, 0)
-			for _, at := range []struct{ seed, t int }{{s2, timeout}, {s2 + 17, timeout * 2}} {
+			for _, at := range []struct{ seed, t int }{{s2, timeout}, {0, timeout * 4}} {
 				if r.Status == "unsat" || r.Status == "sat" || r.Status == "error" {
 					break
 				}
@@ -407,6 +453,17 @@ func runCheck(repo, root, prop, tier string, seed int) *CheckResult {
 		default:
 			res.CoverUnknown++
 		}
+	}
+
+	var staleNames []string
+	for n := range staleFuncs {
+		staleNames = append(staleNames, n)
+	}
+	sort.Strings(staleNames)
+	for _, n := range staleNames {
+		why := staleFuncs[n]
+		res.Undecided = append(res.Undecided, map[string]interface{}{"function": n, "reasons": why})
+		res.Lines = append(res.Lines, fmt.Sprintf("UNDECIDED property=%s function=%s: its contract no longer matches the code (%s); its obligations are not decided by proof on this tree, the bounded stand-ins decide", prop, n, why[0]))
 	}
 
 	// 3. bounded stand-ins
@@ -472,6 +529,10 @@ func runCheck(repo, root, prop, tier string, seed int) *CheckResult {
 		res.Uncontracted = append(res.Uncontracted, u)
 	}
 	sort.Strings(res.Uncontracted)
+	for u := range inlinedSet {
+		res.Inlined = append(res.Inlined, u)
+	}
+	sort.Strings(res.Inlined)
 	res.Assumptions = append(res.Assumptions, meta.Assumptions...)
 	res.Level = meta.Level
 	if res.Obligations == 0 && len(meta.Bounded) == 0 {
@@ -533,8 +594,8 @@ func writeEvidence(root string, r *CheckResult) {
 		"discharged_by_backend": byBackend,
 		"obligations":   r.Obligations,
 		"discharged":    r.Discharged,
-		"checker_cmd":   fmt.Sprintf("bin/govc check --property %s --tier %s  (VC generator over go/ssa of /repo's working tree; obligations raced on z3-new 5.1.0, z3 4.8.12, cvc5 1.0.3; first unsat discharges)", r.Property, r.Tier),
-		"trusted_base":  append([]string{"go/packages + go/ssa lowering (x/tools v0.29.0)", "govc VC generator and its encoding of SSA (this repository, /verif/engine)", "SMT solvers z3 4.8.12 / z3 5.1.0 / cvc5 1.0.3", "stdlib contract table /verif/specs/10_stdlib.spec (entries used listed below)"}, r.Trusted...),
+		"checker_cmd":   fmt.Sprintf("bin/govc check --property %s --tier %s  (VC generator over go/ssa of /repo's working tree; obligations raced on z3 5.1.0 (z3-new) and cvc5 1.0.3; first unsat discharges)", r.Property, r.Tier),
+		"trusted_base":  append([]string{"go/packages + go/ssa lowering (x/tools v0.29.0)", "govc VC generator and its encoding of SSA (this repository, /verif/engine)", "SMT solvers z3 5.1.0 / cvc5 1.0.3", "stdlib contract table /verif/specs/10_stdlib.spec (entries used listed below)"}, r.Trusted...),
 		"samples":       samples,
 		"functions_under_contract": r.Funcs,
 		"solver_time_ms": r.SolverMs,
@@ -544,6 +605,8 @@ func writeEvidence(root string, r *CheckResult) {
 		"vacuity_covers": map[string]interface{}{"reachable_sat": r.CoverSat, "reachable_sat_quantifier_free_relaxation": r.CoverRelaxed, "undecided": r.CoverUnknown, "unreachable": r.CoverUnsat,
 			"rule": "one query per return statement of every function under contract: premises + path condition must be satisfiable; guards against contradictory contracts/axioms"},
 		"uncontracted_callees_havocked": r.Uncontracted,
+		"helpers_verified_inline": r.Inlined,
+		"undecided_functions_contract_stale": r.Undecided,
 		"explanation":   "deductive: every obligation generated from the current source must be unsat-discharged; bounded stand-ins (if any) are listed under 'bounded' and are not counted in obligations/discharged",
 	}
 	if r.Obligations == 0 {
